@@ -1302,7 +1302,14 @@ def _cos(x):
 
 LIB['numpy.cos'] = _ew1(lambda x: UF_COS(x), 'real')
 LIB['numpy.sin'] = _ew1(lambda x: UF_SIN(x), 'real')
-LIB['numpy.exp'] = _ew1(lambda x: 1 if (is_conc(x) and x == 0) else UF_EXP(x), 'real')
+def _exp(x):
+    if is_conc(x) and x == 0:
+        return 1
+    CTX.side.append((UF_EXP(0) == 1).t)       # axiom exp(0) = 1
+    return UF_EXP(x)
+
+
+LIB['numpy.exp'] = _ew1(_exp, 'real')
 LIB['numpy.sinc'] = _ew1(lambda x: UF_SINC(x), 'real')
 LIB['numpy.log10'] = _ew1(lambda x: UF_LOG10(x), 'real')
 
@@ -2099,3 +2106,19 @@ def scipy_firwin(interp, numtaps, cutoff=None, window='hamming', scale=True, **k
     f = z3.Function(f"firwin_{window if isinstance(window, str) else 'w'}", z3.IntSort(), z3.IntSort(), z3.RealSort())
     nt = Sym.lift(numtaps).as_int()
     return SArr((numtaps,), lambda idx: Sym(f(nt, Sym.lift(idx[0]).as_int()), 'real'), 'real')
+
+
+UF_WOFZ_IM = _uf('wofz_im', 2)
+
+
+def _wofz_scalar(z):
+    z = SCplx.lift(z)
+    return SCplx(UF_WOFZ_RE(z.re, z.im), UF_WOFZ_IM(z.re, z.im))
+
+
+@lib('scipy.special.wofz')
+def scipy_wofz(interp, z):
+    """Faddeeva function: uninterpreted (trusted)."""
+    if isinstance(z, SArr):
+        return A.elementwise1(z, _wofz_scalar, 'complex')
+    return _wofz_scalar(z)
